@@ -288,6 +288,41 @@ def run(tier, seed):
             ck.violation('C11:%s:file-path-raises' % k, '%s %r supplied in the file raises %s when read' % (k, s, type(e).__name__),
                          {'kind': 'failing-input', 'input_class': k, 'string': s, 'via': 'file', 'exception': repr(e)}, found=True)
     ck.cov['file_path_cases'] = n_file
+    # an input that was NOT supplied never silently defaults: every input of every shipped form, looked up in an empty store (and in a
+    # store that has the section but not the option), must be reported missing - optional enumerations and text included
+    from . import scenarios as _sc0
+    from . import catalog as _cat  # noqa  (puts tools/ on the path)
+    import gen_forms as _gf
+    H0 = _sc0.habutax_modules()
+    n_absent = 0
+    for y_ in common.YEARS:
+        for cls in H0['forms'].available_forms[y_]:
+            try:
+                obj = cls(instance=_gf.instances_of(cls)[0])
+            except Exception:  # noqa
+                continue
+            for inp in obj.inputs():
+                for with_section in (False, True):
+                    cfg0 = configparser.ConfigParser(interpolation=None)
+                    if with_section:
+                        cfg0.add_section(inp.section())
+                        cfg0.set(inp.section(), 'some_other_option', 'x')
+                    st0 = H0['inputs'].InputStore(cfg0, {inp.name(): inp})
+                    n_absent += 1
+                    try:
+                        got0 = ('val', st0[inp.name()])
+                    except H0['inputs'].MissingInput:
+                        got0 = ('missing',)
+                    except Exception as e:  # noqa
+                        got0 = ('raise', type(e).__name__)
+                    if got0[0] != 'missing' or st0.provides(inp):
+                        ck.violation('C11:absent-input-defaults:%s' % type(inp).__name__,
+                                     'ty%d input %s (%s%s) is not in the input file, yet reading it gives %r instead of being reported missing' % (
+                                         y_, inp.name(), type(inp).__name__, ', allow_empty' if getattr(inp, 'allow_empty', False) else '', got0),
+                                     {'kind': 'failing-input', 'year': y_, 'input': inp.name(), 'input_class': type(inp).__name__,
+                                      'store': 'empty' if not with_section else 'section present, option absent', 'observed': repr(got0)}, found=True)
+            ck.count(('absent', y_, cls.form_name), nontrivial=True)
+    ck.cov['absent_input_lookups'] = n_absent
     # the solver's side of the gate: a supplied value that its validator rejects makes the solve stop with InvalidInput naming the input -
     # it is neither treated as missing (and asked for again) nor handed to a line
     from . import scenarios as _sc
